@@ -70,6 +70,7 @@ def toItem : WOp → Item
   | .array t vs => .array t (vs.map (norm t))
   | .bytes bs => .raw bs
   | .cstr bs => .raw (bs.takeWhile (· != 0))
+  | .carray t vs => .array t (vs.map (norm t))
   | .strArray ss => .raw (ss.flatMap id)   -- an array of strings is the strings' bytes one after the other
 
 /-- reading "the same types back": the read operations mirroring a write operation -/
@@ -79,6 +80,7 @@ def mirror : WOp → List ROp
   | .array t vs => vs.map fun _ => .scalar t
   | .bytes bs => [.bytes bs.length]
   | .cstr bs => [.bytes (bs.takeWhile (· != 0)).length]
+  | .carray t vs => vs.map fun _ => .scalar t
   | .strArray ss => [.bytes (ss.flatMap id).length]
 
 /-- … and what they must return -/
@@ -88,6 +90,7 @@ def expected : WOp → List RVal
   | .array t vs => vs.map fun v => .val t (norm t v)
   | .bytes bs => [.bytes bs]
   | .cstr bs => [.bytes (bs.takeWhile (· != 0))]
+  | .carray t vs => vs.map fun v => .val t (norm t v)
   | .strArray ss => [.bytes (ss.flatMap id)]
 
 end C16
